@@ -1,0 +1,31 @@
+//go:build verif
+
+package httpfs
+
+// Contracts for the http.FileSystem loader (C19), checked by /verif/jetvc. Comments only.
+
+//@ func (http.FileSystem).Open
+//@   trusted net/http library or user file system
+//@   nopanic
+//@   ensures result1 == nil ==> result0 != nil
+//@ func (http.File).Stat
+//@   trusted net/http library or user file system
+//@   nopanic
+//@   ensures result1 == nil ==> result0 != nil
+//@ func (http.File).Close
+//@   trusted net/http library or user file system
+//@   nopanic
+
+//@ func (*httpfs.httpFileSystemLoader).Exists
+//@   props C19
+//@   requires l != nil && l.fs != nil
+//@   nopanic
+//@   callsite (http.FileSystem).Open 0 requires [exists-and-open-use-the-same-path] name == caller.name && recv == l.fs
+//@   check [directories-do-not-exist] result ==> lastret("(http.FileSystem).Open", 1) == nil && lastret("(http.File).Stat", 1) == nil && !lastret("(fs.FileInfo).IsDir", 0)
+//@   check [opened-file-is-closed] lastret("(http.FileSystem).Open", 1) == nil ==> ncalls("(http.File).Close") == 1
+
+//@ func (*httpfs.httpFileSystemLoader).Open
+//@   props C19
+//@   requires l != nil && l.fs != nil
+//@   nopanic
+//@   callsite (http.FileSystem).Open 0 requires [exists-and-open-use-the-same-path] name == caller.name && recv == l.fs
